@@ -36,6 +36,15 @@ META = {
             "design_ref": "DESIGN.md 6/C12", "note": NOTE, "technique": "TLA+ spec + TLC model checking + TLC trace validation of real executions"},
     "C18": {"text": mc("spec/ics20/Ics20.tla + Ics20MC.tla (governance calls by gov, former gov, strangers; migrate)") + ". Formulas: allow list only loosens (unlimited stays unlimited, u64::MAX distinguished from unlimited), only the governance address allows / hands over, default gas limit only set by migrate, cw20 transfers gated by allow list or default limit, every payout sub-message carries the token's limit or else the default.",
             "design_ref": "DESIGN.md 6/C18", "note": NOTE, "technique": "TLA+ spec + TLC model checking + TLC trace validation of real executions"},
+    "C09": {"text": mc("spec/cw4/Cw4.tla + Cw4MC.tla (both group contracts; membership at the start of every block as spec state)")
+                    + ". Formulas: total = sum of listed members (invariant, listing compared with point queries), every recorded Member{at_height}/TotalWeight{at_height} answer (heights before instantiation, every change height, current, future) equals the block-start history TLC infers from the calls, raw cw4 keys (and the Cw4Contract helpers) equal the smart queries.",
+            "design_ref": "DESIGN.md 6/C09", "note": NOTE, "technique": "TLA+ spec + TLC model checking + TLC trace validation of real executions"},
+    "C10": {"text": mc("spec/cw4/Cw4.tla + Cw4MC.tla (stake flavour: native and cw20 staking token, tokens_per_weight, min_bond, height/time unbonding periods)")
+                    + ". Formulas: holdings = stakes + unreleased claims (invariant), member iff stake >= max(min_bond,1), weight = stake div tokens_per_weight and within u64 (scale abstraction reaches the wrap region), bond/unbond/claim exact incl. only the configured token, claim pays exactly the matured claims and fails when there are none.",
+            "design_ref": "DESIGN.md 6/C10", "note": NOTE, "technique": "TLA+ spec + TLC model checking + TLC trace validation of real executions"},
+    "C14": {"text": mc("spec/cw4/Cw4.tla + Cw4MC.tla (admin hand-overs, 0-2 hooks, overlapping add/remove lists)")
+                    + ". Formulas: admin / hooks / membership writers, frozen forever once the admin is cleared, UpdateMembers applies add then remove exactly, every registered hook gets exactly one identical notification whose diffs replay from the old to the new membership with truthful previous weights and name only addresses the call touched; failing calls notify nobody.",
+            "design_ref": "DESIGN.md 6/C14", "note": NOTE, "technique": "TLA+ spec + TLC model checking + TLC trace validation of real executions"},
 }
 
 NOT_APPLICABLE = {
@@ -43,8 +52,7 @@ NOT_APPLICABLE = {
 
  "C07": "check under construction in this session",
     "C08": "check under construction in this session", "C09": "check under construction in this session",
-    "C10": "check under construction in this session", "C11": "check under construction in this session",
-    "C14": "check under construction in this session",
+    "C11": "check under construction in this session",
  "C16": "check under construction in this session",
     "C17": "check under construction in this session", "C18": "check under construction in this session",
     "C20": "check under construction in this session",
